@@ -8,7 +8,7 @@ C07.b  structural compositions (Add with carry in/out, SignedAdd/Sub, Neg, Abs, 
 C07.c  definite failures in arithmetic.py;
 C07.e  IntegerHelper.c2_to_signed / signed_to_c2 / signExtend == two's-complement contract.
 """
-from ..leafrules import leaf_contracts, definite_failures
+from ..leafrules import leaf_contracts, definite_failures, shared_instance_state
 from ..structrules import run_specs
 from .c12 import twos_complement
 
@@ -28,5 +28,7 @@ def run(ctx, sm, facts):
     definite_failures(ctx, facts, sm, 'C07.c', ['py4hw/logic/arithmetic.py'],
                       class_filter=lambda n: n not in ('Counter', 'ModuloCounter', 'StepUpCounter'))
     twos_complement(ctx, facts, 'C07.e')
+    ctx.rule('C07.g', 'instance isolation in arithmetic.py: no mutable default / class-level container / memoised method carries state between instances')
+    shared_instance_state(ctx, facts, 'C07.g', ['py4hw/logic/arithmetic.py'])
     ctx.not_decided += ['widths above the grid bound', 'division/modulo by zero (documented as unspecified)']
     ctx.assumptions += ['documented functions transcribed in hv/specs.py and hv/contracts.py', 'elaborator and summariser faithful']
